@@ -21,7 +21,7 @@ RULE = (
     "'did not return' (counted, not judged); non-trivial = the operation returned and the input has >=2 plates or >=2 samples"
 )
 ASSUMPTIONS = ["per-plate hold-out count: ceil of the float product, of the exact rational product, and of the decimal reading of the fraction are all accepted"]
-REQUIRED = {"returned_screens_changed_in_place": {"quick": 150, "thorough": 3000}, "holdouts_on_integer_masks": {"quick": 80, "thorough": 1200}, "cli_prepare_runs": {"quick": 12, "thorough": 150}, "cli_prepare_fraction_0": {"quick": 6, "thorough": 14}, "generator_returns": {"quick": 600, "thorough": 9000}, "smoother_returns": {"quick": 1000, "thorough": 15000}, "holdout_returns": {"quick": 500, "thorough": 7000}, "input_unchanged_checks": {"quick": 3500, "thorough": 50000}, "ops_after_in_place_reveal": {"quick": 150, "thorough": 2500}}
+REQUIRED = {"holdout_grid_points": {"quick": 2500, "thorough": 2500}, "returned_screens_changed_in_place": {"quick": 150, "thorough": 3000}, "holdouts_on_integer_masks": {"quick": 80, "thorough": 1200}, "cli_prepare_runs": {"quick": 12, "thorough": 150}, "cli_prepare_fraction_0": {"quick": 6, "thorough": 14}, "generator_returns": {"quick": 600, "thorough": 9000}, "smoother_returns": {"quick": 1000, "thorough": 15000}, "holdout_returns": {"quick": 500, "thorough": 7000}, "input_unchanged_checks": {"quick": 3500, "thorough": 50000}, "ops_after_in_place_reveal": {"quick": 150, "thorough": 2500}}
 N_OPS = {"quick": 4000, "thorough": 56000}
 
 
@@ -88,6 +88,31 @@ def check_holdout(rec, name, fraction, inp, train, hold, w):
                 rec.check(k in accepted_counts(size, fraction), "C11/holdout/wrong-per-plate-count", lambda: "hold-out took %d of %d rows from unobserved plate %r, fraction %r" % (k, size, str(p), fraction), w)
     else:
         rec.check(hold.size in accepted_counts(inp.size, fraction), "C11/holdout/wrong-count", lambda: "random hold-out took %d of %d rows, fraction %r" % (hold.size, inp.size, fraction), w)
+
+
+def holdout_grid(rec, rng, shard, nshards):
+    """The count rule on a grid: every plate size 1..48 against every fraction k/20 (and k/3, k/7, k/8): products that
+    are exact integers, products a hair off an integer, complements that round the other way in binary."""
+    from batchie.data import Screen
+    from batchie import retrospective as R
+
+    fractions = sorted(set([k / 20 for k in range(1, 20)] + [k / 3 for k in (1, 2)] + [k / 7 for k in range(1, 7)] + [k / 8 for k in range(1, 8)]))
+    for size in range(1 + shard, 49, nshards):
+        tn = np.array([["d%d" % (i % 4), "e%d" % (i % 3)] for i in range(size + 2)], dtype=str)
+        kw = dict(treatment_names=tn, treatment_doses=np.ones((size + 2, 2)), sample_names=np.array(["s%d" % (i % 2) for i in range(size + 2)], dtype=str), plate_names=np.array(["big"] * size + ["seen"] * 2, dtype=str), observations=(np.arange(size + 2) + 1.0) / (size + 5.0), observation_mask=np.array([False] * size + [True] * 2))
+        scr = Screen(**kw)
+        for f in fractions:
+            for name, fn in (("holdout_balanced", R.create_plate_balanced_holdout_set_among_masked_plates), ("holdout_random", R.create_random_holdout)):
+                w = {"op": name, "fraction": f, "plate_size": size}
+                try:
+                    train, hold = fn(scr, f, np.random.default_rng(int(rng.integers(0, 2**31))))
+                except Exception as e:
+                    rec.did_not_return(name + "-grid", e)
+                    continue
+                rec.count("holdout_grid_points")
+                rec.count("oracle_evals")
+                want = accepted_counts(size if name == "holdout_balanced" else size + 2, f)
+                rec.check(hold.size in want, "C11/holdout/wrong-per-plate-count" if name == "holdout_balanced" else "C11/holdout/wrong-count", lambda: "%s: fraction %r of %d experiments gave a hold-out of %d, expected %r" % (name, f, size if name == "holdout_balanced" else size + 2, hold.size, sorted(want)), w)
 
 
 def cli_prepare(rec, tier, rng):
@@ -235,4 +260,5 @@ def run_shard(rec, tier, seed, shard, nshards):
             screen = None
         else:
             screen = real_screen
+    holdout_grid(rec, rng, shard, nshards)
     cli_prepare(rec, tier, rng)
